@@ -95,7 +95,7 @@ class TypeLengthString(object):
         self.raw = data[offset+1:offset+1+self.length]
 
         if self.field_type == self.TYPE_BCD_PLUS:
-            self.string = self.raw.decode('bcd+')
+            self.string = bytes(bytearray(self.raw)).decode('bcd+')
         elif self.field_type == self.TYPE_6BIT_ASCII:
             self.string = _unpack6bitascii(self.raw)
         else:
